@@ -18,7 +18,7 @@ RULE = ("algebra elements: rotation vector = axis (all directions incl. coordina
         "mpmath matrix exponential for exp; for L=log(T): finite, real, algebra form, |rotation|<=pi, reference exp(L)=T; "
         "log(exp S)=S for |w|<=pi-1e-6. Non-trivial: rotation magnitude < 1e-6, or within 1e-4 of pi, or |t| > 1e3, or pure "
         "translation, or matrix form.")
-RULE = RULE + probes.RULE_TEXT + (probes.AUG_TEXT if PROPERTY_ID in probes.AUG_PROPS else "") + probes.VARIANT_TEXT + probes.OWN_TEXT
+RULE = RULE + probes.RULE_TEXT + (probes.AUG_TEXT if PROPERTY_ID in probes.AUG_PROPS else "") + probes.VARIANT_TEXT + probes.OWN_TEXT + probes.EXTRA_RULES.get(PROPERTY_ID, "")
 ASSUMPTIONS = ["mpmath (50 digits, scaling-and-squaring Taylor series) is the reference exponential; the closed-form reference in pbt/refs.py is cross-checked against it at start-up",
                "tolerance 1e-7*max(1,|t|)", "rotation magnitudes in (2e-15, 1e-12) are not generated (the statement starts at 1e-12)",
                "SE2.Exp/SO2.Exp receive ndarrays: a Python list there is documented as a sequence of elements"]
